@@ -199,10 +199,18 @@ def audit_axioms(prop_id, mods, timeout=1800):
         f.unlink(missing_ok=True)
     out = r.stdout + r.stderr
     res = {n: None for n in names}
-    for m in re.finditer(r"'([^']+(?:'[^ ]*)?)' depends on axioms: \[([^\]]*)\]", out.replace("\n ", " ").replace("\n", " ")):
-        res[m.group(1)] = [a.strip() for a in m.group(2).split(",") if a.strip()]
-    for m in re.finditer(r"'(\S+)' does not depend on any axioms", out):
-        res[m.group(1)] = []
+    # join continuation lines (Lean wraps long axiom lists), then parse report by report: each report starts at
+    # a line beginning with a quote.  (A single regex over the whole text mis-paired names when an axiom-free
+    # theorem was directly followed by one with axioms.)
+    joined = re.sub(r"\n[ \t]+", " ", out)
+    for line in joined.splitlines():
+        m = re.match(r"^'(.+)' depends on axioms: \[([^\]]*)\]\s*$", line)
+        if m:
+            res[m.group(1)] = [a.strip() for a in m.group(2).split(",") if a.strip()]
+            continue
+        m = re.match(r"^'(.+)' does not depend on any axioms\s*$", line)
+        if m:
+            res[m.group(1)] = []
     return res, out
 
 
